@@ -221,7 +221,24 @@ def emit_auth(w, src, must):
     w("")
 
 
-SECTIONS = [("codes", emit_codes), ("timers", emit_timers), ("guards", emit_guards), ("stun", emit_stun), ("sdp", emit_sdp), ("sip", emit_sip), ("auth", emit_auth)]
+def emit_ua(w, src, must):
+    """forms of the INVITE user agent the channel model of C13 depends on"""
+    t = src("crates/sip-ua/src/invite/initiator.rs")
+    body = t[t.index("impl Initiator"):]
+    body = body[:body.index("enum EarlyEvent")]
+    blocks = bool(re.search(r"\.send\(\s*EarlyEvent::Response\(\w+\)\s*\)\s*\.await", body))
+    tries = bool(re.search(r"try_send\(\s*EarlyEvent::Response", body))
+
+    ce = body[body.index("fn create_early_dialog"):]
+    m = must(re.search(r"let \(\w+, \w+\) = mpsc::channel\((\d+)\);", ce), "early dialog channel capacity")
+    w("(* Initiator::receive hands a response to its early dialog with send().await (it waits for a free slot, nothing is dropped); the")
+    w("   channel created in create_early_dialog has this many slots (sip-ua/src/invite/initiator.rs) *)")
+    flag(w, "early_forward_blocks", blocks and not tries, tries, "Initiator::receive hand-over to the early dialog (send().await or try_send)")
+    w("Definition early_channel_capacity : N := %s." % m.group(1))
+    w("")
+
+
+SECTIONS = [("codes", emit_codes), ("timers", emit_timers), ("guards", emit_guards), ("stun", emit_stun), ("sdp", emit_sdp), ("sip", emit_sip), ("auth", emit_auth), ("ua", emit_ua)]
 
 # which properties' models read which section of Gen/Tables.v
 SECTION_USERS = {
@@ -233,4 +250,5 @@ SECTION_USERS = {
     "sdp": ["C19"],
     "sip": ["C01"],
     "auth": ["C18"],
+    "ua": ["C13"],
 }
